@@ -15,7 +15,8 @@ Definition moved (P newP : str) (e : Z * str) : Z * str := if ieq P (snd e) then
 Lemma byname_users' s name : s_users (fst (getUserIdByName s name)) = s_users s.
 Proof.
   unfold getUserIdByName. destruct (dict_get (C03.Model.lower name) (s_ncache s)); [reflexivity|].
-  destruct (find_name (C03.Model.lower name) (s_users s)); reflexivity.
+  destruct (find_name (C03.Model.lower name) (s_users s)) as [i|]; [|reflexivity].
+  destruct (ninsert (C03.Model.lower name) i (s_ncache s) (s_nrev s)). reflexivity.
 Qed.
 
 (* an accepted users.setUser stores exactly the record it was given *)
